@@ -284,6 +284,16 @@ def acceptSparse (tol : Rat) (m : POMDP) : Bool :=
   allLt m.A (fun a => allLt m.S (fun s => isProbRowSp tol m.S (fun s1 => keep tol (m.T s a s1)))) &&
   allLt m.A (fun a => allLt m.S (fun s1 => isProbRowSp tol m.O (fun o => keep tol (m.Ob s1 a o))))
 
+/-- the converting constructors `MDP::SparseModel(const M&)` / `POMDP::SparseModel(const PM&)`: per entry
+    `if (p < 0.0 || p > 1.0) throw; if (checkDifferentSmall(p, 0.0)) insert(…) = p;` and per row
+    `if (checkDifferentSmall(1.0, stored_row.sum())) throw;` -/
+def convRowSp (tol : Rat) (n : Nat) (row : Nat → Rat) : Bool :=
+  allLt n (fun i => !(decide (row i < 0) || decide (1 < row i))) && !diffSmall tol 1 (sumTo n (fun i => keep tol (row i)))
+
+def acceptSparseConv (tol : Rat) (m : POMDP) : Bool :=
+  allLt m.S (fun s => allLt m.A (fun a => convRowSp tol m.S (fun s1 => m.T s a s1))) &&
+  allLt m.A (fun a => allLt m.S (fun s1 => convRowSp tol m.O (fun o => m.Ob s1 a o)))
+
 /-- `POMDP::Model(o, s, a, discount)`: `MDP::Model(s, a)` sets every `transitions_[a]` to the identity,
     `observations_[a].col(0).fill(1.0)`, the other columns zero -/
 def defaultModel (S A O : Nat) : POMDP :=
